@@ -29,6 +29,14 @@ KNOWN = os.path.join(VERIF, "known_findings.txt")
 GOENV = dict(os.environ, GOFLAGS="-mod=mod", GOPROXY="off", GOSUMDB="off",
              GOTOOLCHAIN="local", CGO_ENABLED=os.environ.get("CGO_ENABLED", "1"))
 
+# VERIF_COVER=<dir> (used by checks/coverage.py only, never by the registered commands): build the harness and the
+# applications with Go's coverage instrumentation for /repo's packages and collect counters in <dir>
+COVER_DIR = os.environ.get("VERIF_COVER")
+COVFLAGS = ["-cover", "-coverpkg=github.com/goblimey/go-ntrip/..."] if COVER_DIR else []
+if COVER_DIR:
+    os.makedirs(COVER_DIR, exist_ok=True)
+    GOENV["GOCOVERDIR"] = COVER_DIR
+
 MODEL_BIN = os.path.join(OCAML, "_build", "default", "driver.exe")
 IMPL_BIN = os.path.join(HARNESS, "bin", "impl")
 
@@ -88,7 +96,7 @@ def build_harness():
     with Lock("gobuild"):
         shutil.copyfile(os.path.join(REPO, "go.sum"), os.path.join(HARNESS, "go.sum"))
         os.makedirs(os.path.join(HARNESS, "bin"), exist_ok=True)
-        rc, out = sh(["go", "build", "-o", "bin/", "./cmd/..."], cwd=HARNESS, env=GOENV, timeout=600)
+        rc, out = sh(["go", "build"] + COVFLAGS + ["-o", "bin/", "./cmd/..."], cwd=HARNESS, env=GOENV, timeout=600)
         return rc == 0, out
 
 
@@ -118,7 +126,7 @@ def build_app_test(app, rewrite=None, race=False):
         with open(ov, "w") as f:
             json.dump({"Replace": repl}, f)
         out_bin = os.path.join(HARNESS, "bin", app + (".race.test" if race else ".test"))
-        rc, out = sh(["go", "test", "-c", "-vet=off"] + (["-race"] if race else []) + ["-modfile=" + os.path.join(mod, "go.mod"), "-overlay", ov,
+        rc, out = sh(["go", "test", "-c", "-vet=off"] + COVFLAGS + (["-race"] if race else []) + ["-modfile=" + os.path.join(mod, "go.mod"), "-overlay", ov,
                       "-o", out_bin, "./apps/" + app], cwd=REPO, env=GOENV, timeout=900)
         return rc == 0, out, out_bin
 
@@ -131,7 +139,7 @@ def build_app(app):
         shutil.copyfile(os.path.join(REPO, "go.mod"), os.path.join(mod, "go.mod"))
         shutil.copyfile(os.path.join(REPO, "go.sum"), os.path.join(mod, "go.sum"))
         out_bin = os.path.join(HARNESS, "bin", "app_" + app.replace("/", "_"))
-        rc, out = sh(["go", "build", "-modfile=" + os.path.join(mod, "go.mod"), "-o", out_bin, "./apps/" + app],
+        rc, out = sh(["go", "build"] + COVFLAGS + ["-modfile=" + os.path.join(mod, "go.mod"), "-o", out_bin, "./apps/" + app],
                      cwd=REPO, env=GOENV, timeout=900)
         return rc == 0, out, out_bin
 
@@ -155,7 +163,8 @@ def run_app_test(test_bin, cases, prop, timeout=1800, shards=8):
         with open(cf, "w") as f:
             f.write("\n".join(c) + "\n")
         env = dict(GOENV, VERIF_CASES=cf, VERIF_OUT=of, VERIF_WORK=wd)
-        rc, out = sh([test_bin, "-test.run", "TestVerifRun", "-test.timeout", "%ds" % timeout], cwd=wd, env=env, timeout=timeout + 30)
+        rc, out = sh([test_bin, "-test.run", "TestVerifRun", "-test.timeout", "%ds" % timeout] + (["-test.gocoverdir", COVER_DIR] if COVER_DIR else []),
+                     cwd=wd, env=env, timeout=timeout + 30)
         lines = open(of).read().splitlines() if os.path.exists(of) else []
         shutil.rmtree(wd, ignore_errors=True)
         return rc, out, lines
